@@ -343,9 +343,15 @@ impl ChainCtl {
 		let pool = self.node.sh.mempool.lock().unwrap().clone();
 		let mut sel: Vec<Transaction> = vec![];
 		let mut used: Vec<pedersen::Commitment> = vec![];
+		// stay under the block weight limit (the coinbase output and kernel included)
+		let limit = global::max_block_weight();
+		let mut weight: u64 = 21 + 3;
 		for tx in pool {
 			if sel.len() >= max {
 				break;
+			}
+			if weight + tx.weight() > limit {
+				continue;
 			}
 			if self.chain.validate_tx(&tx).is_err()
 				|| self.chain.verify_coinbase_maturity(&tx.inputs()).is_err()
@@ -357,6 +363,7 @@ impl ChainCtl {
 				continue;
 			}
 			used.extend(ins);
+			weight += tx.weight();
 			sel.push(tx);
 		}
 		sel
